@@ -5,7 +5,6 @@ import (
 	"math"
 	"sort"
 	"strings"
-	"time"
 
 	"github.com/atlassian/gostatsd"
 	"github.com/atlassian/gostatsd/pkg/backends/newrelic"
@@ -47,9 +46,14 @@ func runNewRelic(in *input, cfg BackendCfg) bres {
 		apiKey = "key"
 	}
 	cli, err := client("newrelic", func() (gostatsd.Backend, error) {
-		return newrelic.NewClient("default", srv.srv.URL+"/v1/data", srv.srv.URL+"/metric/v1", "GoStatsD", cfg.Mode, apiKey, cfg.Suffix,
-			"name", "type", "per_second", "value", "min", "max", "count", "mean", "median", "std_dev", "sum", "sum_squares",
-			"agent", cfg.Batch, maxReq(8), 5*time.Second, flushInterval, in.subtypes(), quiet, p)
+		v := baseViper(in)
+		nr := map[string]interface{}{"address": srv.srv.URL + "/v1/data", "address-metrics": srv.srv.URL + "/metric/v1", "flush-type": cfg.Mode,
+			"tag-prefix": cfg.Suffix, "metrics-per-batch": cfg.Batch, "max-requests": int(maxReq(8)), "max-request-elapsed-time": "5s"}
+		if apiKey != "" {
+			nr["api-key"] = apiKey
+		}
+		v.Set("newrelic", nr)
+		return newrelic.NewClientFromViper(v, quiet, p)
 	})
 	if err != nil {
 		r.monitors = append(r.monitors, "newrelic.NewClient: "+err.Error())
